@@ -7,8 +7,8 @@ package set
 
 // lemma_API_SetHas: after Set(n), Has(n) holds and the answer for every other m is unchanged.
 //
-//@ props C26
-//@ inline Set Has
+// @ props C26
+// @ inline Set Has
 func lemma_API_SetHas(bs *Ints, n uint64, m uint64) {
 	requires(bs != nil && m != n)
 	before := bs.Has(m)
@@ -19,8 +19,8 @@ func lemma_API_SetHas(bs *Ints, n uint64, m uint64) {
 
 // lemma_API_ClearHas: after Clear(n), Has(n) is false and every other m is unchanged.
 //
-//@ props C26
-//@ inline Clear Has
+// @ props C26
+// @ inline Clear Has
 func lemma_API_ClearHas(bs *Ints, n uint64, m uint64) {
 	requires(bs != nil && m != n)
 	before := bs.Has(m)
@@ -31,8 +31,8 @@ func lemma_API_ClearHas(bs *Ints, n uint64, m uint64) {
 
 // lemma_API_Empty: the zero value is the empty set.
 //
-//@ props C26
-//@ inline Has
+// @ props C26
+// @ inline Has
 func lemma_API_Empty(n uint64) {
 	var bs Ints
 	ensures(!bs.Has(n))
